@@ -17,7 +17,7 @@ PURE_LIBC = {'strcmp', 'strncmp', 'strlen', 'tolower', 'toupper', 'fabs', 'memcm
 
 # ---- TAB3 -----------------------------------------------------------------------------------------------
 
-def tab3(units, R):
+def tab3(units, R, switches=('print_value', 'cJSON_Compare')):
     """The kind of a node is only ever examined through the 0xFF mask (or a single-bit `&` test); the ownership
     flags never take part in an equality test or a switch."""
     n = 0
@@ -68,6 +68,8 @@ def tab3(units, R):
     u = units['cJSON.c']
     for fname, need, label in (('print_value', set(KINDS.values()), 'prints every kind'),
                                ('cJSON_Compare', set(KINDS.values()), 'accepts every kind as valid')):
+        if fname not in switches:
+            continue
         fn = u.fn(fname)
         sw = [s for s in fn.nodes() if s.get('k') == 'switch']
         best = None
@@ -117,6 +119,17 @@ def tab3(units, R):
             R.ob('TAB3', fn, s, '%s: unknown kinds are refused by the default arm' % fname, refused,
                  'the helper gives %s for anything else, which is refused' % v0, key='switchdefault:' + fname)
             continue
+        if not masked:
+            # what the switch runs over: the type word itself (unmasked: a violation), or something else that this rule cannot
+            # relate to the type word (a rule looked up in a table by a loop): not judged
+            srcs = [cond]
+            if cond.get('k') == 'ref' and cond.get('dk') == 'local':
+                srcs = [a_['r'] for a_ in assignments(fn) if is_ref(a_['l']) and strip_casts(a_['l'])['d'] == cond['d']]
+                srcs += [d_['init'] for d_ in fn.locals() if d_['d'] == cond['d'] and 'init' in d_]
+            if not any(x_.get('k') == 'mem' and x_.get('f') == 'type' and 'cJSON' in u.ty(strip_casts(x_['b'])['ty'])['s']
+                       for s_ in srcs for x_ in walk(s_)):
+                raise AnalysisBroken('TAB3: %s: the switch of %s runs over %s, which is neither the masked type word nor the result of a '
+                                     'helper applied to it' % (fn.where(s), fname, expr_str(cond)[:40]))
         R.ob('TAB3', fn, s, '%s: switch %s on the masked kind' % (fname, label), masked and need <= labels,
              'cases %s, mask %s' % (sorted(labels), masked), key='switch:' + fname)
         dflt = [d for d in walk(s['body']) if d.get('k') == 'default']
@@ -742,6 +755,17 @@ def _returns_false_under(cfg, fn, branch, y, r):
         for ev in node_effects(cfg.nodes[m]):
             if ev.kind in ('store', 'incdec') and is_ref(ev.lhs):
                 assigned.add(strip_casts(ev.lhs)['d'])
+    # a flag lowered on the way (equal = false; ... return equal && ...): a local whose only store between the differing pair and the
+    # return is one constant, on every path
+    flags = {}
+    for m in between:
+        for ev_ in node_effects(cfg.nodes[m]):
+            if ev_.kind == 'store' and is_ref(ev_.lhs) and ev_.node.get('op') == '=' and const_val(ev_.node['r']) is not None:
+                d0 = strip_casts(ev_.lhs)['d']
+                others = [1 for m2 in between for e2 in node_effects(cfg.nodes[m2])
+                          if e2.kind in ('store', 'incdec') and is_ref(e2.lhs) and strip_casts(e2.lhs)['d'] == d0 and e2.node is not ev_.node]
+                if not others and (m == y or r.id not in (cfg.reachable(y, stop={m}) | {y})):
+                    flags[d0] = const_val(ev_.node['r'])
     nonnull = set()
     for d_ in [x_['d'] for x_ in list(fn.locals()) + list(fn.params)]:
         if d_ in assigned:
@@ -793,6 +817,8 @@ def _returns_false_under(cfg, fn, branch, y, r):
             return ev(e['t'] if c else e['e'])
         if e.get('k') == 'ref' and e.get('d') in nonnull:
             return True
+        if e.get('k') == 'ref' and e.get('d') in flags:
+            return bool(flags[e['d']])
         return None
     return ev(r.expr) is False
 
